@@ -249,16 +249,18 @@ func (c *Ctx) rulesC01(a *coreAnchors, la *LockAnalysis) {
 			c.ok("C01.a", key, w.Instr.Pos(), "constructor")
 			continue
 		}
-		good := w.Fn == a.setActive && w.Kind == "assign"
+		good := (w.Fn == a.setActive || c.hostedBy(w.Fn, a.setActive)) && w.Kind == "assign"
 		msg := "activeStates may only be assigned in setActiveStates"
 		if good {
-			// value derives from the targetStates parameter
-			tp := a.setActive.Params[2]
+			// value derives from the targetStates parameter (a parameter of a
+			// hosted helper stands for what setActiveStates passes)
+			tp := ssa.Value(a.setActive.Params[2])
+			isTP := func(v ssa.Value) bool { return v == tp || c.hostedArg(v, a.setActive) == tp }
 			good = flowsFrom(w.Val, func(v ssa.Value) bool {
-				if v == tp {
+				if isTP(v) {
 					return true
 				}
-				if call, ok := v.(*ssa.Call); ok && calleeName(&call.Call) == "Clone" && len(call.Call.Args) == 1 && call.Call.Args[0] == tp {
+				if call, ok := v.(*ssa.Call); ok && calleeName(&call.Call) == "Clone" && len(call.Call.Args) == 1 && isTP(call.Call.Args[0]) {
 					return true
 				}
 				return false
